@@ -94,6 +94,11 @@ def check_case(res, base, rng, nframes, where, method, label, zero_ids, presolve
     times = [0.0] * nframes
     for t in range(1, nframes):
         times[t] = times[t - 1] + (dt if {t - 1, t} == {where, nb} else float(rng.uniform(0.3, 3.0)))
+    # time stamps relative to an event: some frame other than the first carries the time 0.0 exactly (earlier frames are negative)
+    if nframes >= 2 and rng.random() < 0.5:
+        anchor = int(rng.integers(1, nframes))
+        times = [t_ - times[anchor] for t_ in times]
+        res.count("a frame other than the first has time stamp 0.0")
     replay = {"specs": [{k: s[k] for k in ("vertices", "edges", "cells")} for s in specs], "times": times, "where": where, "method": method,
               "T": T.tolist(), "label": label, "presolve": presolve}
     frames = {t: impl.frame(s, t, times[t]) for t, s in enumerate(specs)}
